@@ -4,6 +4,7 @@ Imports model files only (no Mathlib) so it links as a `lean_exe`.
 -/
 import S4V.Model.Wire
 import S4V.Model.Path
+import S4V.Model.Lines
 
 open S4V.Model S4V.Model.Wire
 
@@ -17,9 +18,52 @@ def stepPath : List String → String
     | none => "bad-op"
   | _ => "bad-op"
 
+def stepBlk : List String → String
+  | [bs, fsz, fo] =>
+    match bs.toNat?, fsz.toNat?, fo.toNat? with
+    | some bs, some _fsz, some fo =>
+      let off := S4V.Gen.Blocks.blockOffsetAtFileOffset fo bs
+      let idx := S4V.Gen.Blocks.blockIndexAtFileOffset fo bs
+      let cnt := S4V.Gen.Blocks.countBlocks _fsz bs
+      let fob := S4V.Gen.Blocks.fileOffsetAtBlockOffset off bs
+      let foi := S4V.Gen.Blocks.fileOffsetAtBlockOffsetIndex off bs idx
+      s!"{off} {idx} {cnt} {fob} {foi}"
+    | _, _, _ => "bad-op"
+  | _ => "bad-op"
+
+def histOp (bs : Nat) (d : List UInt8) (op : String) : String :=
+  let kind := op.take 1 |>.toString
+  match (op.drop 1).toString.toNat? with
+  | none => "bad-op"
+  | some fo =>
+    if kind = "f" then
+      match Lines.findLine bs d fo with
+      | .done => "done"
+      | .found n _ => s!"found {n} {Lines.lineStart d fo} {Lines.lineEnd d fo}"
+    else if kind = "i" then "ib-ok"
+    else if kind = "d" then "drop"
+    else "bad-op"
+
+def stepLine : List String → String
+  | "fresh" :: bs :: h :: fo :: [] =>
+    match bs.toNat?, unhex h, fo.toNat? with
+    | some bs, some d, some fo => (Lines.findLine bs d fo).toString
+    | _, _, _ => "bad-op"
+  | "freshib" :: bs :: h :: fo :: [] =>
+    match bs.toNat?, unhex h, fo.toNat? with
+    | some bs, some d, some fo => (Lines.findLineInBlock bs d fo).toString
+    | _, _, _ => "bad-op"
+  | "hist" :: bs :: h :: ops =>
+    match bs.toNat?, unhex h with
+    | some bs, some d => String.intercalate ";" (ops.map (histOp bs d))
+    | _, _ => "bad-op"
+  | _ => "bad-op"
+
 def step (line : String) : String :=
   match words line with
   | "path" :: rest => stepPath rest
+  | "line" :: rest => stepLine rest
+  | "blk" :: rest => stepBlk rest
   | _ => "bad-op"
 
 partial def loop (h : IO.FS.Stream) (out : IO.FS.Stream) : IO Unit := do
